@@ -34,7 +34,8 @@ from terms import E, is_c, smt, t_and, t_not, t_eq, t_or   # noqa: E402
 CRATES = {
     "model": dict(dir="crates/model", features=["u128"], assoc="crates/model/src/num.rs",
                   dep='gmsol-model = { path = "%s/crates/model", features = ["u128", "test"] }'),
-    "store": dict(dir="programs/store", features=["no-entrypoint"], assoc="crates/model/src/num.rs", extra=["model"], decl_dirs=["crates/utils/src"],
+    "model_utils": dict(dir="crates/model", features=["u128", "solana"], assoc="crates/model/src/num.rs", dep=""),
+    "store": dict(dir="programs/store", features=["no-entrypoint"], assoc="crates/model/src/num.rs", extra=["model_utils", "utils"],
                   rustflags="--cfg gmsol_verif",
                   dep='gmsol-store = { path = "%s/programs/store", features = ["no-entrypoint"] }\n'
                       'gmsol-model = { path = "%s/crates/model", features = ["u128"] }\nanchor-lang = "0.31.1"\nbytemuck = "1.19.0"\ngmsol-utils = { path = "%s/crates/utils" }'),
@@ -133,7 +134,8 @@ class Native:
         arms = []
         for k in sorted(self.obls):
             o = self.obls[k]
-            lets = "".join(f"            let {n}: {RUST_TY.get(ty, ty)} = arg({i + 2});\n" for i, (n, ty) in enumerate(o.inputs))
+            real = [(n, ty) for n, ty in o.inputs if n not in o.ghost]
+            lets = "".join(f"            let {n}: {RUST_TY.get(ty, ty)} = arg({i + 2});\n" for i, (n, ty) in enumerate(real))
             arms.append(f'        "{k}" => {{\n{lets}            {o.rust}\n        }}\n')
         return ("// generated by /verif/mir2smt/run.py: native replay of solver models against the real code\n"
                 "#![allow(unused, clippy::all)]\n"
@@ -185,6 +187,8 @@ class Native:
         o = self.obls[key]
         argv = [os.path.join(self.tdir, "debug", f"mir-replay-{self.crate}"), key]
         for n, ty in o.inputs:
+            if n in o.ghost:
+                continue
             v = values[n]
             argv.append(("true" if v else "false") if ty == "bool" else str(v))
         p = subprocess.run(argv, stdout=subprocess.PIPE, stderr=subprocess.PIPE, text=True, timeout=60)
@@ -221,14 +225,20 @@ def encode(ob, world):
             vals[n] = ex.sym_bool(n) if ty == "bool" else ex.sym_int(n, ty)
     item, subst = ob.locate(world)
     ex.stubs = [(re.compile("^" + p + "$"), (lambda e, m, a, f=f: f(e, m, a, vals))) for p, f in ob.stubs]
-    ret = ex.run(item, subst, ob.args(vals))
+    ex.tap_rx = [(n, re.compile("^" + p + "$")) for n, (p, _) in ob.taps.items()]
+    ret = ex.run(item, subst, ob.args(vals), init_locals=ob.init_locals(vals) if ob.init_locals else None)
     enc = Encoded()
     enc.ex = ex
     enc.item = item
     enc.returned = ex.pc
-    enc.view = ob.view(ret)
+    enc.view = ob.view_state(ret, ex.root_final) if ob.view_state else ob.view(ret)
     enc.i = {n: E(v.t) for n, v in vals.items()}
     enc.o = {k: E(t) for k, t in enc.view.items()}
+    for n, (_, f) in ob.taps.items():
+        if n not in ex.taps:
+            raise Unsupported(f"tap {n}: the call was never executed")
+        for k, t in f(*ex.taps[n]).items():
+            enc.o[k] = E(t)
     enc.assume = E(ob.assume(enc.i)).t if ob.assume else True
     return enc
 
@@ -237,6 +247,8 @@ def concrete_clauses(ob, fn, inputs, view):
     """Evaluate clause list `fn` on concrete inputs and a concrete (native) view."""
     i = {n: E(v) for n, v in inputs.items()}
     o = {k: E(v) for k, v in view.items()}
+    if ob.derive:
+        o.update({k: E(v) for k, v in ob.derive(inputs).items()})
 
     class D(dict):
         def __missing__(self, k):
@@ -256,6 +268,7 @@ class Runner:
                     "inconclusive": [], "known_findings": []}
         self.trusted = set()
         self.functions = []
+        self.findings_seen = set()
 
     def close(self):
         self.z3.stop()
@@ -377,6 +390,18 @@ class Runner:
         # 2. specification clauses
         ret = enc.returned
         for lab, f in ob.spec(enc.i, enc.o):
+            if lab in ob.findings:
+                # a clause the code is known (or suspected) to violate in the region `role`: it must hold
+                # outside the region, and inside the region a natively reproducing witness is reported as
+                # KNOWN-FINDING if its key is listed in /verif/known_findings.json, as a violation otherwise.
+                key, role_fn = ob.findings[lab]
+                role = E(role_fn(enc.i, enc.o)).t
+                check("spec", lab + " [outside the finding region " + key + "]",
+                      smt(t_and(ret, t_not(role), t_not(E(f).t))), "unsat",
+                      lambda i, o, lab=lab, role_fn=role_fn: [(l + " [outside the finding region " + key + "]",
+                                                               E(role_fn(i, o)) | E(c)) for l, c in ob.spec(i, o) if l == lab])
+                self.finding_witness(ob, enc, lab, key, smt(t_and(ret, role, t_not(E(f).t))), base, in_names, view_keys, values)
+                continue
             check("spec", lab, smt(t_and(ret, t_not(E(f).t))), "unsat", ob.spec)
         # 3. vacuity witnesses
         for lab, f in (ob.covers(enc.i, enc.o) if ob.covers else []):
@@ -410,7 +435,36 @@ class Runner:
                     notes=ob.notes, queries_ok=counts["ok"], queries_bad=counts["bad"], panics_checked=len(ex.panics),
                     wall_s=round(time.time() - t0, 2))
 
-    def handle_cex(self, ob, enc, kind, label, model, in_names, view_keys, values, clause_fn, rec):
+    def finding_witness(self, ob, enc, label, key, formula, base, in_names, view_keys, values):
+        self.res["queries"] += 1
+        st, model, info = self.decide(base + [f"(assert {formula})"], values, "sat")
+        rec = dict(engine="mir2smt", obligation=ob.name, kind="finding-witness", label=label, key=key, status=st, **info)
+        if st == "unsat":
+            self.res["discharged"] += 1          # the clause holds in the region too: the finding is gone
+            rec["finding_present"] = False
+            self.sample(**rec)
+            return
+        if st != "sat":
+            self.inconclusive(f"{ob.name}/{label}: finding witness {key}: solver answered {st}")
+            self.sample(**rec)
+            return
+        known = []
+        try:
+            known = [k for k in json.load(open(os.path.join(VERIF, "known_findings.json"))).get("known", [])
+                     if k.get("property") == self.prop and k.get("key") == key]
+        except Exception:
+            pass
+        rec["finding_present"] = True
+        if key in self.findings_seen:
+            # already witnessed (and replayed) in this run for another obligation of the property
+            self.res["discharged"] += 1
+            self.sample(**rec)
+            return
+        self.findings_seen.add(key)
+        self.handle_cex(ob, enc, "spec", label, model, in_names, view_keys, values, ob.spec, rec,
+                        known=known[0]["what"] if known else None)
+
+    def handle_cex(self, ob, enc, kind, label, model, in_names, view_keys, values, clause_fn, rec, known=None):
         """A `sat` where `unsat` was expected: replay natively; only a reproducing model is a violation."""
         inputs = {n: model[n] for n in in_names}
         inputs.update(ob.fixed)
@@ -437,6 +491,12 @@ class Runner:
         else:
             cl = dict(concrete_clauses(ob, clause_fn, inputs, nat["view"]))
             reproduced = cl.get(label) is False
+            if not reproduced and label.startswith("LEMMA"):
+                # a clause about an internal value: natively only its consequences on the result are observable
+                bad = [l for l, v in cl.items() if v is False]
+                if bad:
+                    reproduced = True
+                    rec["native_violated_clause"] = bad[0]
             why = f"native view {nat['view']}, encoded view {enc_view}"
         rec.update(inputs=inputs, encoded_view=enc_view, native=nat, reproduced=reproduced)
         self.sample(**rec)
@@ -449,7 +509,10 @@ class Runner:
                    "vector_expected": clause_fn[1] if isinstance(clause_fn, tuple) else None,
                    "native_at_report": nat, "crate": self.native.crate,
                    "main_rs": self.native.main_rs()}, open(path, "w"), indent=1)
-        if reproduced:
+        if reproduced and known is not None:
+            self.res["discharged"] += 1
+            self.res["known_findings"].append(f"{known} [witness {ob.name} / {label}: inputs={inputs} native={nat.get('view', nat)}; replay {path}]")
+        elif reproduced:
             self.res["violations"].append({"replay": path, "obligation": ob.name, "label": label,
                                            "inputs": inputs, "native": nat})
             log(f"  E2 counterexample reproduces natively: {ob.name} / {label}: inputs={inputs} native={nat}")
@@ -558,9 +621,10 @@ def replay(path):
             return any(nat["view"].get(k, 0) != v for k, v in d["vector_expected"].items())
         fn = ob.spec if d["kind"] == "spec" else ob.wrong
         cl = dict(concrete_clauses(ob, fn, d["inputs"], nat["view"]))
-        if d["label"] not in cl or cl[d["label"]] is None:
+        label = d["label"].split(" [outside the finding region")[0]
+        if label not in cl or cl[label] is None:
             return None
-        return cl[d["label"]] is False
+        return cl[label] is False
     except Exception as e:
         log(f"  replay failed: {type(e).__name__}: {e}")
         return None
